@@ -36,6 +36,9 @@ int stub_udict_cmp(struct udict *a, struct udict *b) { return 0; }
 #ifndef TO_NULL
 #define TO_NULL 0
 #endif
+#ifndef SWAP
+#define SWAP 0
+#endif
 #ifndef REENTER
 #define REENTER 0
 #endif
@@ -47,7 +50,10 @@ static struct urequest g_r0, g_r1, g_r2, g_rnew;
 /* ghost: what each output heard, per request */
 static int g_reg[2][MAXR + 1], g_unreg[2][MAXR + 1], g_last[2][MAXR + 1];     /* g_last: 1 = register, 2 = unregister */
 static int g_unknown_req, g_provide_events, g_freed_req[MAXR + 1], g_bad_order;
+static int g_acc[2], g_inputs[2], g_inputs_unaccepted[2];        /* per output: accepted a definition; buffers received; buffers received before accepting */
 static struct upipe *g_pipe; static bool g_reenter; static int g_reentered;
+static bool g_rej[2];             /* the output refuses flow definitions */
+static int g_swap, g_need_output_events;       /* the probe answers need_output by connecting output B */
 static int stub_req_control(struct upipe *upipe, int command, va_list args)
 {
     int o = upipe == &g_outA ? 0 : 1;
@@ -60,7 +66,14 @@ static int stub_req_control(struct upipe *upipe, int command, va_list args)
             g_reg[o][k]++; g_last[o][k] = 1;
             /* re-entrancy: the output answers request 0 at once and the answer's callback re-requires request 1
              * (unregister + register through the same helper), as UPIPE_HELPER_FLOW_FORMAT -> _UBUF_MGR pipes do */
-            if (g_reenter && k == 0 && NREQ >= 2 && g_reentered == 0) {
+            if (REENTER == 2 && g_reentered == 0) {
+                /* re-entrancy of another kind: answering the request makes the pipe send data at once (a pipe that was holding
+                 * buffers until the answer): the buffer must not reach an output that has not accepted the definition */
+                g_reentered = 1;
+                struct uref *u_ = vs_make_uref(false, 0, 5);
+                if (u_ != NULL) upipe_input(g_pipe, u_, NULL);
+            }
+            if (REENTER == 1 && g_reenter && k == 0 && NREQ >= 2 && g_reentered == 0) {
                 g_reentered = 1;
                 upipe_idem_unregister_output_request(g_pipe, &g_r1);
                 upipe_idem_register_output_request(g_pipe, &g_r1);
@@ -71,9 +84,15 @@ static int stub_req_control(struct upipe *upipe, int command, va_list args)
         g_unreg[o][k]++; g_last[o][k] = 2;
         return UBASE_ERR_NONE;
     }
+    if (command == UPIPE_SET_FLOW_DEF) { if (g_rej[o]) { g_acc[o] = 0; return UBASE_ERR_INVALID; } g_acc[o] = 1; return UBASE_ERR_NONE; }
     return UBASE_ERR_UNHANDLED;
 }
-static void stub_req_input(struct upipe *upipe, struct uref *uref, struct upump **upump_p) { uref_free(uref); }
+static void stub_req_input(struct upipe *upipe, struct uref *uref, struct upump **upump_p)
+{
+    int o = upipe == &g_outA ? 0 : 1;
+    g_inputs[o]++; if (!g_acc[o]) g_inputs_unaccepted[o]++;
+    uref_free(uref);
+}
 static struct upipe_mgr g_req_mgr;
 static void stub_rc_cb(struct urefcount *rc) { }
 static void stub_req_free(struct urequest *r) { int k = IDX(r); if (k >= 0) g_freed_req[k]++; }
@@ -81,6 +100,10 @@ static int stub_req_provide(struct urequest *r, va_list args) { return UBASE_ERR
 static int stub_probe_req(struct uprobe *uprobe, struct upipe *upipe, int event, va_list args)
 {
     if (event == UPROBE_PROVIDE_REQUEST) g_provide_events++;
+    if (event == UPROBE_NEED_OUTPUT) {
+        g_need_output_events++;
+        if (g_swap && g_need_output_events == 1) { upipe_idem_set_output(g_pipe, &g_outB); return UBASE_ERR_NONE; }
+    }
     return event == UPROBE_LOG ? UBASE_ERR_NONE : UBASE_ERR_UNHANDLED;
 }
 static struct upipe *vp_call_alloc(struct upipe_mgr *mgr, struct uprobe *uprobe, uint32_t signature, ...)
@@ -116,7 +139,12 @@ static bool spec_list_is(struct upipe *upipe, int n, bool with_new, int skip)
     for (int o_ = 0; o_ < 2; o_++) for (int k_ = 0; k_ <= MAXR; k_++) { g_reg[o_][k_] = g_unreg[o_][k_] = g_last[o_][k_] = 0; } \
     for (int k_ = 0; k_ <= MAXR; k_++) { g_freed_req[k_] = 0; urequest_init(RQ(k_), UREQUEST_UCLOCK, NULL, stub_req_provide, stub_req_free); } \
     g_unknown_req = g_provide_events = g_bad_order = g_reentered = 0; g_reenter = false; \
+    g_rej[0] = g_rej[1] = false; g_swap = 0; g_need_output_events = 0; \
+    g_acc[0] = g_acc[1] = 0; g_inputs[0] = g_inputs[1] = 0; g_inputs_unaccepted[0] = g_inputs_unaccepted[1] = 0; \
     if (WITH_A) { s->output = &g_outA; g_rcA.refcount++; } \
+    /* the old output has accepted the pipe's definition (state VALID) */ \
+    s->flow_def = vs_make_uref(true, 7, 0); VASSUME(s->flow_def != NULL); \
+    if (WITH_A) { s->output_state = UPIPE_HELPER_OUTPUT_VALID; g_acc[0] = 1; } \
     for (int k_ = 0; k_ < NREQ; k_++) { ulist_add(&s->request_list, &RQ(k_)->uchain); RQ(k_)->registered = WITH_A != 0; if (WITH_A) g_last[0][k_] = 1; }
 
 void h_req_register(void)
@@ -149,6 +177,8 @@ void h_req_set_output(void)
     g_reenter = REENTER != 0;
     int ret = upipe_idem_set_output(upipe, out);
     VPOST(ret == UBASE_ERR_NONE && s->output == out && g_bad_order == 0 && g_unknown_req == 0);
+    VPOST(g_inputs_unaccepted[0] == 0 && g_inputs_unaccepted[1] == 0);     /* no buffer reaches an output before it accepted the flow definition */
+    VPOST(s->output_state == UPIPE_HELPER_OUTPUT_NONE || (out != NULL && g_acc[1]));
     VIN(uint8_t, gk); VASSUME(gk < NREQ || NREQ == 0);
     if (NREQ > 0) {
         /* withdrawn from the old output exactly once */
@@ -161,6 +191,32 @@ void h_req_set_output(void)
         for (int k = 0; k < MAXR + 1; k++) { if (c == &s->request_list) break; if (c == &RQ(gk)->uchain) on++; c = c->next; }
         VPOST(on == 1 && c == &s->request_list);
     }
+    VCANARY();
+}
+/* ---- _output when the connected output refuses the definition and the application (probe, need_output) connects another:
+ * the refused output loses the pipe's reference and the helper's temporary one (C01), the new output is offered the
+ * definition and gets the buffer only if it accepted (C04); without a replacement the buffer is dropped, nothing leaks */
+void h_output_swap(void)
+{
+    BUILD();
+    VIN(uint8_t, b_rejects);
+    s->output_state = UPIPE_HELPER_OUTPUT_NONE; g_acc[0] = 0; g_rej[0] = true; g_rej[1] = (b_rejects & 1) != 0;
+    g_swap = SWAP;
+    struct uref *u = vs_make_uref(false, 0, 9); VASSUME(u != NULL);
+    int live0 = gs_uref_live;
+    upipe_idem_output(upipe, u, NULL);
+    VPOST(gs_uref_live == live0 - 1);                               /* the buffer was delivered (and consumed) or freed: never kept, never freed twice */
+    VPOST(g_inputs_unaccepted[0] == 0 && g_inputs_unaccepted[1] == 0 && g_inputs[0] == 0);
+    VPOST(g_need_output_events >= 1);
+    if (SWAP) {
+        VPOST(s->output == &g_outB && (int)g_rcA.refcount == 1 && (int)g_rcB.refcount == 2);     /* every reference on the refused output was returned */
+        VPOST(g_inputs[1] == (g_rej[1] ? 0 : 1));
+        VPOST(s->output_state == (g_rej[1] ? UPIPE_HELPER_OUTPUT_INVALID : UPIPE_HELPER_OUTPUT_VALID));
+    } else {
+        VPOST(s->output == &g_outA && (int)g_rcA.refcount == 2 && (int)g_rcB.refcount == 1 && g_inputs[1] == 0);
+        VPOST(s->output_state == UPIPE_HELPER_OUTPUT_INVALID);
+    }
+    VPOST(spec_list_is(upipe, NREQ, false, -1));
     VCANARY();
 }
 /* ---- proxies: an upstream request U registered on this pipe is forwarded as a proxy; answers come back to U ---------- */
